@@ -63,6 +63,9 @@ func gen(tier string, rng *h.Rng, emit func(string)) {
 			emit(fmt.Sprintf("spin p=helper.%s at=%d reps=12", f, 50+rng.Intn(4000)))
 		}
 	}
+	for _, p := range []string{"query.sys", "query.user", "query.url", "grouping"} {
+		emit("collect p=" + p)
+	}
 	// dispatchSign + queryLoop: submitter / member, share buffered before the registration,
 	// context already expired when the stage starts (F15), expiring at each quiet point
 	emit(dispatchLine("sc", "sc", "s", "ctx", "f2,f0,f1,go,r", 1, false, 4))
